@@ -175,6 +175,10 @@ func (g *c04Gen) maybeProbe(e *c04Expr) *c04Expr {
 }
 
 func (g *c04Gen) num(d int) *c04Expr {
+	if d > 0 && g.n(0, 13, "twoResults") == 0 {
+		// the operand comes out of a Go function with the results (interface{}, error): the value inside is the operand
+		return &c04Expr{Op: "two", A: g.num(d - 1)}
+	}
 	if d <= 0 || g.n(0, 3, "numleafq") == 0 {
 		return g.numLeaf()
 	}
@@ -455,6 +459,8 @@ func c04raw(e *c04Expr, sh *c04Shape) string {
 		return fmt.Sprintf("v%d", e.Var)
 	case "probe":
 		return fmt.Sprintf("p(%d, %s)", e.ID, c04p(e.A, 0, sh))
+	case "two":
+		return "two(" + c04p(e.A, 0, sh) + ")"
 	case "neg", "pos":
 		sh.nOps++
 		sh.child(e, e.A, lvPrimary)
@@ -624,7 +630,7 @@ func (ev *c04Eval) eval(e *c04Expr) c04Val {
 	case "probe":
 		ev.log = append(ev.log, e.ID)
 		return ev.eval(e.A)
-	case "pos":
+	case "pos", "two":
 		return ev.eval(e.A)
 	case "neg":
 		a := ev.eval(e.A)
@@ -872,6 +878,7 @@ func judgeC04(c c04Case) (v core.Verdict) {
 		}
 		data[fmt.Sprintf("V%d", i)] = vr.goValue()
 	}
+	vars.Set("two", func(v interface{}) (interface{}, error) { return v, nil })
 	vars.SetFunc("p", func(a jet.Arguments) reflect.Value {
 		log = append(log, int(a.Get(0).Float()))
 		return a.Get(1)
